@@ -62,6 +62,52 @@ theorem C06_nested_partial (env : Env) (db : Db) (n : Nested) (h : okN n = true)
     evalNested env db (saRenderN n) = evalNested env db n :=
   evalNested_saRenderN env db n h
 
+/-- CREATE TABLE (T6.3): the rendered column declarations reject the same NULLs and form the same
+key as the original ones, for every column definition (`NULL` / `NOT NULL` / unspecified, key or
+not, `serial`) … -/
+theorem C06_ddl_column (c : ColDef) :
+    (saSpec c).rejectsNull = (srcSpec c).rejectsNull ∧ (saSpec c).pk = (srcSpec c).pk := by
+  rcases c with ⟨pk, _ | _ | _, serial⟩ <;> cases pk <;> cases serial <;> decide
+
+/-- … hence any sequence of inserts leaves the same contents in the table created by the rendered
+text as in the one created by the original text (all column lists, all rows) -/
+theorem C06_ddl_contents (cols : List ColDef) (rows new : Render.Table) :
+    insertAll (cols.map saSpec) rows new = insertAll (cols.map srcSpec) rows new := by
+  have hspec : ∀ c : ColDef, (saSpec c).rejectsNull = (srcSpec c).rejectsNull ∧
+      (saSpec c).pk = (srcSpec c).pk := C06_ddl_column
+  have hadm : ∀ rs r, admits (cols.map saSpec) rs r = admits (cols.map srcSpec) rs r := by
+    intro rs r
+    have h1 : ∀ (cs : List ColDef) (r : Row),
+        ((cs.map saSpec).zip r).all (fun sr => !(sr.1.rejectsNull && sr.2.isNone)) =
+        ((cs.map srcSpec).zip r).all (fun sr => !(sr.1.rejectsNull && sr.2.isNone)) := by
+      intro cs
+      induction cs with
+      | nil => intro r; rfl
+      | cons c cs ih =>
+        intro r
+        cases r with
+        | nil => rfl
+        | cons v vs => simp only [List.map_cons, List.zip_cons_cons, List.all_cons, (hspec c).1, ih vs]
+    have h2 : (cols.map saSpec).any (·.pk) = (cols.map srcSpec).any (·.pk) := by
+      induction cols with
+      | nil => rfl
+      | cons c cs ih => simp only [List.map_cons, List.any_cons, (hspec c).2, ih]
+    have h3 : ∀ (cs : List ColDef) (z : List (Val × Val)),
+        ((cs.map saSpec).zip z).all (fun x => !x.1.pk || x.2.1 == x.2.2) =
+        ((cs.map srcSpec).zip z).all (fun x => !x.1.pk || x.2.1 == x.2.2) := by
+      intro cs
+      induction cs with
+      | nil => intro z; rfl
+      | cons c cs ih =>
+        intro z
+        cases z with
+        | nil => rfl
+        | cons v vs => simp only [List.map_cons, List.zip_cons_cons, List.all_cons, (hspec c).2, ih vs]
+    simp only [admits, h1 cols r, h2, h3 cols]
+  induction new generalizing rows with
+  | nil => rfl
+  | cons r rs ih => simp only [insertAll, hadm, ih]
+
 theorem C06_dml_partial (env : Env) (db : Db) (s : Stmt) (h : okStmt s = true) :
     exec env db (saStmt s) = exec env db s :=
   exec_saStmt env db s h
